@@ -1745,7 +1745,7 @@ func runC19(ctx *Ctx) *Result {
 		}
 	}
 	if skipped > 0 {
-		res.Notes = append(res.Notes, fmt.Sprintf("time budget reached: %d generated scenarios not run", skipped))
+		res.Notes = append(res.Notes, fmt.Sprintf("time budget reached or search ended early: %d generated scenarios not run", skipped))
 	}
 	res.Exhaustive = false
 	_ = context.Background
